@@ -1,0 +1,27 @@
+//go:build verif
+
+package ua
+
+import "reflect"
+
+// VerifRegisteredServices returns the service registry (node id string ->
+// pointer type) of the tree under test. Verification builds only.
+func VerifRegisteredServices() map[string]reflect.Type {
+	return svcreg.verifTypes()
+}
+
+// VerifRegisteredExtObjs returns the extension object registry (node id
+// string -> pointer type) of the tree under test. Verification builds only.
+func VerifRegisteredExtObjs() map[string]reflect.Type {
+	return eotypes.verifTypes()
+}
+
+func (r *TypeRegistry) verifTypes() map[string]reflect.Type {
+	r.mu.Lock()
+	defer r.mu.Unlock()
+	m := make(map[string]reflect.Type, len(r.types))
+	for k, v := range r.types {
+		m[k] = v
+	}
+	return m
+}
